@@ -350,5 +350,5 @@ def obligations(tier):
     for op in range(6):
         obs.append(Ob('barrel_vs_list', timeout=T, pins={'op': op}))
     for low in range(4):
-        obs.append(Ob('pq_removals', timeout=T, pins={'nmin': 5 if q else 0, 'nmax': 5 if q else 6, 'masklow': low, 'readd': low % 2}, need_kinds=('many_removed',)))
+        obs.append(Ob('pq_removals', timeout=T if q else 2700, pins={'nmin': 5 if q else 0, 'nmax': 5 if q else 6, 'masklow': low, 'readd': low % 2}, need_kinds=('many_removed',)))
     return obs
